@@ -32,14 +32,13 @@ META = dict(
                'commits, cancellations, clean-ups) and for every key, the usage recorded per (batch, job, resource), per (batch, job group, '
                'resource) incl. the root group = the batch, per (billing project, user, resource) and in the by-date table (summed over days) '
                'equals the sum over the attempt_resources rows of quantity x billed time max(rollup-start,0) of the row\'s attempt - restricted '
-               'to the job, to the jobs whose group has the group among its ancestors-or-self (with the multiplicity of the group in the '
-               'ancestor rows), resp. to the batches of that billing project and user; and no table holds anything under any other key. '
+               'to the job, to the jobs whose group has the group among its ancestors-or-self (each once: the ancestor rows of a group are proved '
+               'pairwise distinct), resp. to the batches of that billing project and user; and no table holds anything under any other key. '
                'Compaction: for every sharded table, every list of target keys and every key, the per-key total after compaction equals the '
                'total before; a compacted key is left with one token-0 row holding the old total; rows of other keys are untouched.',
     level_note='Token shards and billing days are summed away in the main model (the by-date theorem is the statement that the days add up to '
-               'the billing-project/user total); the compaction half is proved on a separate list-of-(key, token, usage) model. Group usage is '
-               'stated with the multiplicity of the group among the ancestor rows of the job\'s group (that those ids are distinct is not '
-               'proved here). The model is hand-written and tied by execution, not proved equal to the SQL.',
+               'the billing-project/user total); the compaction half is proved on a separate list-of-(key, token, usage) model. '
+               'The model is hand-written and tied by execution, not proved equal to the SQL.',
     partial=False,
 )
 TRUSTED = family.COMMON_TRUSTED + [
@@ -51,7 +50,15 @@ ASSUMPTIONS = family.COMMON_ASSUMPTIONS + [
     'compaction runs as its own transactions (SELECT ... FOR UPDATE on the key serialises it against the billing triggers)',
 ]
 
-replay = family.replay
+
+def replay(ctx, doc):
+    case = doc.get('case') or {}
+    if isinstance(case, dict) and 'compaction_case' in case:
+        r = _run_compaction(ctx, [case['compaction_case']])[0]
+        return {'compaction_case': case['compaction_case'], 'before': r['before'], 'after': r['after'], 'result': r['result'],
+                'totals_before': _totals(r['before']), 'totals_after': _totals(r['after'])}
+    return family.replay(ctx, doc)
+
 
 BPS = ['bp1', 'bp2', 'bp12']
 USERS = ['u1', 'u2']
